@@ -37,3 +37,9 @@ func (r *RNG) Perm(n int) []int {
 	}
 	return p
 }
+
+func (r *RNG) Shuffle(n int, swap func(i, j int)) {
+	for i := n - 1; i > 0; i-- {
+		swap(i, r.Intn(i+1))
+	}
+}
